@@ -131,6 +131,47 @@ func runWithPbar(getPbar func() pbar.Bar, run runProgressFunc) error {
 	})
 }
 
+// orderChildrenFirst orders commits so that every commit comes before its parents
+func orderChildrenFirst(db objects.Store, commits [][]byte) ([][]byte, error) {
+	idx := map[string]int{}
+	for i, sum := range commits {
+		idx[string(sum)] = i
+	}
+	children := make([]int, len(commits))
+	parents := make([][]int, len(commits))
+	for i, sum := range commits {
+		com, err := objects.GetCommit(db, sum)
+		if err != nil {
+			return nil, err
+		}
+		for _, p := range com.Parents {
+			if j, ok := idx[string(p)]; ok {
+				parents[i] = append(parents[i], j)
+				children[j]++
+			}
+		}
+	}
+	ordered := make([][]byte, 0, len(commits))
+	queue := []int{}
+	for i, n := range children {
+		if n == 0 {
+			queue = append(queue, i)
+		}
+	}
+	for len(queue) > 0 {
+		i := queue[0]
+		queue = queue[1:]
+		ordered = append(ordered, commits[i])
+		for _, j := range parents[i] {
+			children[j]--
+			if children[j] == 0 {
+				queue = append(queue, j)
+			}
+		}
+	}
+	return ordered, nil
+}
+
 func Prune(db objects.Store, rs ref.Store, opts *PruneOptions) (err error) {
 	if opts == nil {
 		opts = &PruneOptions{}
@@ -190,7 +231,12 @@ func Prune(db objects.Store, rs ref.Store, opts *PruneOptions) (err error) {
 		return err
 	}
 
-	// remove orphaned commits
+	// remove orphaned commits, children before their parents: if the process dies half way
+	// no stored commit is left without its parent
+	commitsToRemove, err = orderChildrenFirst(db, commitsToRemove)
+	if err != nil {
+		return err
+	}
 	return runWithPbar(opts.PruneCommitsPbar, func(pbarAdd func()) (err error) {
 		for _, sum := range commitsToRemove {
 			err = objects.DeleteCommit(db, sum)
